@@ -63,36 +63,20 @@ theorem C02_rejected_by_contract_no_effect
   simp only [hb, mkRcpt]
   split <;> rfl
 
-/-- an accepted request on an index-checked (non-batch) pair carries exactly the next index -/
+theorem isResponse_of_isRequest {ty : IType} (h : ty.isRequest = true) : ty.isResponse = false := by
+  cases ty <;> simp_all [IType.isRequest, IType.isResponse]
+
+/-- an accepted request (not the destination hub's notice, which begins nothing) on an index-checked (non-batch) pair carries
+exactly the next index -/
 theorem C02_accept_needs_next_index (env : Env) (l : Led) (i : Ibtp) (ck : Checked)
-    (h : checkIBTP env l i = .ok ck) (hreq : i.typ.isRequest = true) (hb : ck.isBatch = false) :
+    (h : checkIBTP env l i = .ok ck) (hreq : i.typ.isRequest = true) (hn : ck.notice = false) (hb : ck.isBatch = false) :
     i.index = KV.getD (getIC l ck.src).ic ck.dst 0 + 1 := by
+  have hresp := isResponse_of_isRequest hreq
   unfold checkIBTP at h
-  split at h
-  · cases h
-  · rename_i src hsrc
-    split at h
-    · cases h
-    · rename_i dst hdst
-      simp only [hreq, if_true] at h
-      split at h
-      · split at h
-        · cases h
-        · rename_i sv hsv
-          split at h
-          · cases h
-          · generalize hct : checkTarget env l src dst = ct at h
-            obtain ⟨b, t⟩ := ct
-            simp only at h
-            split at h
-            · split at h
-              · cases h
-              · rename_i hok
-                cases h
-                exact (checkIndex_ok_iff _ _).mp hok
-            · cases h
-              simp_all
-      · split at h <;> cases h
+  repeat' (first
+    | (cases h <;> first | (exact (checkIndex_ok_iff _ _).mp ‹_›) | simp_all)
+    | split at h
+    | simp only at h)
 
 /-! ### the delivery set reaches the destination's pier -/
 
@@ -159,12 +143,14 @@ open Bxh Bxh.Exec
 def runIbtps (env : Env) (l : Led) (is : List Ibtp) : Led :=
   is.foldl (fun l i => match handleIBTP env l i with | .ok r => r.1 | .error _ => l) l
 
-/-- indices of the accepted requests of the ordered pair (s, d), in acceptance order -/
+/-- indices of the accepted requests of the ordered pair (s, d), in acceptance order (between two hubs the request handed back
+with the destination hub's notice is no request of the pair: it begins nothing) -/
 def acceptedReqs (env : Env) (s d : SvcId) : Led → List Ibtp → List Nat
   | _, [] => []
   | l, i :: rest =>
     match handleIBTP env l i with
-    | .ok r => (if i.typ.isRequest = true ∧ i.frm = some s ∧ i.to = some d then [i.index] else []) ++ acceptedReqs env s d r.1 rest
+    | .ok r => (if i.typ.isRequest = true ∧ i.frm = some s ∧ i.to = some d ∧ isNotification l s d i = some false then [i.index] else [])
+        ++ acceptedReqs env s d r.1 rest
     | .error _ => acceptedReqs env s d l rest
 
 theorem handleIBTP_ok_checked {env : Env} {l : Led} {i : Ibtp} {r : Led × String} (h : handleIBTP env l i = .ok r) :
@@ -177,43 +163,14 @@ theorem handleIBTP_ok_checked {env : Env} {l : Led} {i : Ibtp} {r : Led × Strin
 theorem checkIBTP_ends {env : Env} {l : Led} {i : Ibtp} {ck : Checked} (h : checkIBTP env l i = .ok ck) :
     i.frm = some ck.src ∧ i.to = some ck.dst := by
   unfold checkIBTP at h
-  split at h
-  · cases h
-  · rename_i src hsrc
-    split at h
-    · cases h
-    · rename_i dst hdst
-      simp only at h
-      have key : ∀ ck' : Checked, ck'.src = src → ck'.dst = dst → i.frm = some ck'.src ∧ i.to = some ck'.dst := by
-        intro ck' h1 h2; rw [h1, h2]; exact ⟨hsrc, hdst⟩
-      split at h
-      · split at h
-        · split at h
-          · cases h
-          · split at h
-            · cases h
-            · generalize checkTarget env l _ _ = ct at h
-              obtain ⟨b, t⟩ := ct
-              simp only at h
-              split at h
-              · split at h
-                · cases h
-                · cases h; exact key _ rfl rfl
-              · cases h; exact key _ rfl rfl
-        · split at h <;> cases h
-      · split at h
-        · split at h
-          · split at h
-            · cases h
-            · split at h
-              · cases h
-              · cases h; exact key _ rfl rfl
-          · split at h
-            · cases h
-            · split at h
-              · cases h
-              · cases h; exact key _ rfl rfl
-        · cases h
+  repeat' (first | (cases h <;> exact ⟨‹_›, ‹_›⟩) | split at h | simp only at h)
+
+/-- for a request (no notice) the batch flag is the one `checkTargetAvailability` answers -/
+theorem checkIBTP_request_batch {env : Env} {l : Led} {i : Ibtp} {ck : Checked} (h : checkIBTP env l i = .ok ck)
+    (hreq : i.typ.isRequest = true) (hn : ck.notice = false) : ck.isBatch = (checkTarget env l ck.src ck.dst).1 := by
+  have hresp := isResponse_of_isRequest hreq
+  unfold checkIBTP at h
+  repeat' (first | (cases h <;> simp_all) | split at h | simp only at h)
 
 /-- the destination is index-checked: a local, non-hub destination whose service record (if any) is an ordered one -/
 def OrderedDst (env : Env) (l : Led) (d : SvcId) : Prop :=
@@ -221,7 +178,7 @@ def OrderedDst (env : Env) (l : Led) (d : SvcId) : Prop :=
   ∀ sv, l.getS (.svc d.chain d.sid) = some (.svc sv) → sv.ordered = true
 
 theorem orderedDst_not_batch {env : Env} {l : Led} {i : Ibtp} {ck : Checked} (hd : OrderedDst env l ck.dst)
-    (h : checkIBTP env l i = .ok ck) (hreq : i.typ.isRequest = true) : ck.isBatch = false := by
+    (h : checkIBTP env l i = .ok ck) (hreq : i.typ.isRequest = true) (hn : ck.notice = false) : ck.isBatch = false := by
   obtain ⟨hloc, hhub, hcache, hord⟩ := hd
   have hct : ∀ src, (checkTarget env l src ck.dst).1 = false := by
     intro src
@@ -242,36 +199,8 @@ theorem orderedDst_not_batch {env : Env} {l : Led} {i : Ibtp} {ck : Checked} (hd
           · rfl
           · simp [hord sv hs]
       | _ => rfl
-  unfold checkIBTP at h
-  split at h
-  · cases h
-  · rename_i src hsrc
-    split at h
-    · cases h
-    · rename_i dst hdst
-      simp only [hreq, if_true] at h
-      split at h
-      · split at h
-        · cases h
-        · split at h
-          · cases h
-          · generalize hg : checkTarget env l src dst = ct at h
-            obtain ⟨b, t⟩ := ct
-            simp only at h
-            split at h
-            · split at h
-              · cases h
-              · cases h
-                have := hct src
-                simp only at this
-                rw [hg] at this
-                exact this
-            · cases h
-              have := hct src
-              simp only at this
-              rw [hg] at this
-              exact this
-      · split at h <;> cases h
+  rw [checkIBTP_request_batch h hreq hn]
+  exact hct ck.src
 
 /-- **requests of an index-checked ordered pair are accepted as 1, 2, 3, … with no gap and no repeat,
 over any history of IBTPs** (requests and receipts of this and of every other pair, valid or not,
@@ -301,16 +230,20 @@ theorem C02_history_requests_consecutive (env : Env) (s d : SvcId) (is : List Ib
       obtain ⟨ih1, ih2⟩ := ih r.1 hd'
       have hrun : runIbtps env r.1 rest = List.foldl (fun l i => match handleIBTP env l i with | .ok r => r.1 | .error _ => l) r.1 rest := rfl
       rw [← hrun]
-      by_cases hmine : i.typ.isRequest = true ∧ i.frm = some s ∧ i.to = some d
-      · obtain ⟨hreq, hfs, htd⟩ := hmine
+      by_cases hmine : i.typ.isRequest = true ∧ i.frm = some s ∧ i.to = some d ∧ isNotification l s d i = some false
+      · obtain ⟨hreq, hfs, htd, hnot⟩ := hmine
         have hs : ck.src = s := by rw [hfrm] at hfs; exact Option.some.inj hfs
         have hdd : ck.dst = d := by rw [hto] at htd; exact Option.some.inj htd
-        have hnb : ck.isBatch = false := orderedDst_not_batch (by rw [hdd]; exact hd) hck hreq
-        have hidx := C02_accept_needs_next_index env l i ck hck hreq hnb
+        have hn : ck.notice = false := by
+          have := checkIBTP_notice hck
+          rw [hs, hdd, hnot] at this
+          exact (Option.some.inj this).symm
+        have hnb : ck.isBatch = false := orderedDst_not_batch (by rw [hdd]; exact hd) hck hreq hn
+        have hidx := C02_accept_needs_next_index env l i ck hck hreq hn hnb
         have hidx' : i.index = reqCounter l s d + 1 := by rw [← hs, ← hdd]; exact hidx
         have hc1 : reqCounter r.1 s d = reqCounter l s d + 1 := by
-          rw [hcnt s d]; simp [hreq, hs, hdd]
-        simp only [hreq, hfs, htd, and_self, if_true, List.singleton_append, List.length_cons]
+          rw [hcnt s d]; simp [hreq, hs, hdd, hn]
+        simp only [hreq, hfs, htd, hnot, and_self, if_true, List.singleton_append, List.length_cons]
         rw [ih2, hc1]
         refine ⟨?_, by omega⟩
         rw [List.range'_succ, ← hidx']
@@ -320,10 +253,14 @@ theorem C02_history_requests_consecutive (env : Env) (s d : SvcId) (is : List Ib
         exact ih1
       · have hc0 : reqCounter r.1 s d = reqCounter l s d := by
           rw [hcnt s d]
-          have : ¬ (i.typ.isRequest = true ∧ s = ck.src ∧ d = ck.dst) := by
+          have : ¬ ((i.typ.isRequest && !ck.notice) = true ∧ s = ck.src ∧ d = ck.dst) := by
             intro ⟨h1, h2, h3⟩
-            exact hmine ⟨h1, by rw [hfrm, h2], by rw [hto, h3]⟩
-          simp [this]
+            simp only [Bool.and_eq_true, Bool.not_eq_eq_eq_not, Bool.not_true] at h1
+            refine hmine ⟨h1.1, by rw [hfrm, h2], by rw [hto, h3], ?_⟩
+            have := checkIBTP_notice hck
+            rw [← h2, ← h3, h1.2] at this
+            exact this
+          simp only [this, if_false]
         simp only [hmine, if_false, List.nil_append]
         rw [ih2, hc0]
         rw [hc0] at ih1
@@ -393,12 +330,14 @@ theorem C02_tx_counter_step (env : Env) (l : Led) (tx : Tx) (inv : Option String
     obtain ⟨hfrm, hto⟩ := checkIBTP_ends hck
     have hcnt := handleIBTP_reqCounter hck h5 s d
     rw [reqCounter_congr (fun x => h6 _) s d, hcnt, hc0]
-    by_cases hmine : i.typ.isRequest = true ∧ s = ck.src ∧ d = ck.dst
+    by_cases hmine : (i.typ.isRequest && !ck.notice) = true ∧ s = ck.src ∧ d = ck.dst
     · right
       rw [if_pos hmine]
-      obtain ⟨hreq, hs, hdd⟩ := hmine
-      have hnb : ck.isBatch = false := orderedDst_not_batch (by rw [← hdd]; exact orderedDst_env h2 h3 hd0) hck hreq
-      have hidx := C02_accept_needs_next_index env' (txStart l) i ck hck hreq hnb
+      obtain ⟨hrn, hs, hdd⟩ := hmine
+      simp only [Bool.and_eq_true, Bool.not_eq_eq_eq_not, Bool.not_true] at hrn
+      obtain ⟨hreq, hn⟩ := hrn
+      have hnb : ck.isBatch = false := orderedDst_not_batch (by rw [← hdd]; exact orderedDst_env h2 h3 hd0) hck hreq hn
+      have hidx := C02_accept_needs_next_index env' (txStart l) i ck hck hreq hn hnb
       refine ⟨rfl, sg, i, p, h1, hreq, by rw [hfrm, hs], by rw [hto, hdd], ?_⟩
       rw [hidx, ← hc0]
       unfold reqCounter
